@@ -1,3 +1,378 @@
-import DnsModel.Synth
+/-
+  C14 — Host names convert between text and wire form without loss.
+  For every byte string `name` and optional zone:
+  * `from_text_sound`: when the conversion succeeds, the text is `l₁.l₂.….lₖ` (optionally with a
+    final dot; or the single dot / the empty text, giving the root), every `lᵢ` is non-empty, dot-free
+    and at most 62 bytes, and the result is the length-prefixed encoding of exactly those labels
+    followed by the root byte (final dot or root) or by the zone; it is at most 253 bytes long;
+  * `from_text_complete`: every such text whose result fits 253 bytes is accepted (in particular
+    every letter-digit-hyphen-underscore name with labels of at most 62 bytes);
+  * `rejects_*`: an empty interior label, a leading dot, a dot-free run of 63 or more bytes, a text
+    or result longer than 253 bytes are errors;
+  * `wire_wellformed`, `reads_back`: the result is a well-formed pointer-free name (labels 1..63,
+    total ≤ 255) whose text form, as the record accessors compute it, is the input without its final
+    dot (followed by the zone's text when a zone was appended).
+-/
+import DnsModel.Lemmas.NameText
+import DnsModel.Lemmas.Question
 namespace Dns.C14
+open Dns Res
+
+/-- the labels a text `dotted done ++ cur` denotes -/
+def labelsOf (done : List Bytes) (cur : Bytes) : List Bytes := if cur = [] then done else done ++ [cur]
+
+theorem encLabels_labelsOf (done : List Bytes) (cur : Bytes) (tail : Bytes) :
+    encLabels (labelsOf done cur) ++ tail =
+      encLabels done ++ (if cur = [] then tail else UInt8.ofNat cur.length :: cur ++ tail) := by
+  unfold labelsOf
+  by_cases h : cur = []
+  · simp [h]
+  · simp [h, encLabels_append, encLabels]
+
+/-- what the tail of `copy_raw_name_from_str` makes of the scan's result -/
+def finishSpec (o cur : Bytes) (zone : Option Bytes) : Bytes :=
+  o ++ (if cur = [] then [0] else UInt8.ofNat cur.length :: cur ++ zone.getD [0])
+
+private theorem finish_none (name : Bytes) (st : NameSt) (o cur' : Bytes)
+    (h1 : st.out = o) (h2 : st.labelLen = cur'.length) (h3 : cur' ≠ [] → name.drop st.labelStart = cur') :
+    (if (st.labelLen == 0) = true then st.out ++ [0]
+      else st.out ++ [UInt8.ofNat st.labelLen] ++ name.drop st.labelStart ++ [0]) = finishSpec o cur' none := by
+  unfold finishSpec
+  by_cases hc : cur' = []
+  · subst hc
+    simp at h2
+    simp [h1, h2]
+  · have hz : (st.labelLen == 0) = false := by
+      have : cur'.length ≠ 0 := by intro h; exact hc (List.length_eq_zero_iff.1 h)
+      simp [h2, this]
+    simp [hz, hc, h1, h2, h3 hc]
+
+private theorem finish_some (name z : Bytes) (st : NameSt) (o cur' : Bytes)
+    (h1 : st.out = o) (h2 : st.labelLen = cur'.length) (h3 : cur' ≠ [] → name.drop st.labelStart = cur') :
+    (if (st.labelLen == 0) = true then st.out ++ [0]
+      else st.out ++ [UInt8.ofNat st.labelLen] ++ name.drop st.labelStart ++ z) = finishSpec o cur' (some z) := by
+  unfold finishSpec
+  by_cases hc : cur' = []
+  · subst hc
+    simp at h2
+    simp [h1, h2]
+  · have hz : (st.labelLen == 0) = false := by
+      have : cur'.length ≠ 0 := by intro h; exact hc (List.length_eq_zero_iff.1 h)
+      simp [h2, this]
+    simp [hz, hc, h1, h2, h3 hc]
+
+/-- the conversion, in terms of the scan -/
+theorem fromStr_eq_scan (name : Bytes) (zone : Option Bytes) (hname : name ≠ [46]) :
+    rawNameFromStr name zone =
+      if name.length > 253 then .err .invalidName
+      else match scan name [] [] with
+        | none => .err .invalidName
+        | some (o, cur) =>
+          if (finishSpec o cur zone).length > 253 then .err .invalidName else .ok (finishSpec o cur zone) := by
+  unfold rawNameFromStr copyRawNameFromStr
+  simp only [failIf, List.length_nil, Nat.sub_zero]
+  by_cases hl : name.length > 253
+  · simp [hl]
+  · simp only [hl, decide_false, Bool.false_eq_true, if_false, bind_ok]
+    have h := rawNameLoop_scan name hname name [] { out := [] } [] rfl ⟨rfl, by intro h; exact absurd rfl h⟩
+    simp only [List.length_nil] at h
+    cases hs : scan name [] [] with
+    | none =>
+      rw [hs] at h
+      simp only at h
+      simp [h]
+    | some x =>
+      obtain ⟨o, cur⟩ := x
+      rw [hs] at h
+      simp only at h
+      obtain ⟨st', hr, h1, h2, h3⟩ := h
+      simp only [hr, bind_ok]
+      cases zone with
+      | none =>
+        simp only
+        rw [finish_none name st' o cur h1 h2 h3]
+        by_cases hout : (finishSpec o cur none).length > 253
+        · simp [hout]
+        · simp [hout]
+      | some z =>
+        simp only
+        rw [finish_some name z st' o cur h1 h2 h3]
+        by_cases hout : (finishSpec o cur (some z)).length > 253
+        · simp [hout]
+        · simp [hout]
+
+theorem finishSpec_labels (done : List Bytes) (cur : Bytes) (zone : Option Bytes) :
+    finishSpec (encLabels done) cur zone = encLabels (labelsOf done cur) ++ (if cur = [] then [0] else zone.getD [0]) := by
+  unfold finishSpec
+  rw [encLabels_labelsOf]
+  by_cases h : cur = [] <;> simp [h]
+
+theorem fromStr_dot (zone : Option Bytes) : rawNameFromStr [46] zone = .ok [0] := by
+  cases zone <;> rfl
+
+/-- **soundness.** An accepted text is labels separated by dots; the result encodes exactly them. -/
+theorem from_text_sound {name out : Bytes} {zone : Option Bytes} (h : rawNameFromStr name zone = .ok out) :
+    name.length ≤ 253 ∧ out.length ≤ 253 ∧
+      ((name = [46] ∧ out = [0]) ∨
+       ∃ done cur, name = dotted done ++ cur ∧ (∀ l ∈ done, TextLabel l) ∧ TextRun cur ∧
+         out = encLabels (labelsOf done cur) ++ (if cur = [] then [0] else zone.getD [0])) := by
+  by_cases hname : name = [46]
+  · subst hname
+    rw [fromStr_dot] at h
+    simp at h
+    subst h
+    exact ⟨by simp, by simp, Or.inl ⟨rfl, rfl⟩⟩
+  · rw [fromStr_eq_scan name zone hname] at h
+    by_cases hl : name.length > 253
+    · simp [hl] at h
+    simp only [hl, if_false] at h
+    cases hs : scan name [] [] with
+    | none => rw [hs] at h; simp at h
+    | some x =>
+      obtain ⟨o, cur⟩ := x
+      rw [hs] at h
+      simp only at h
+      by_cases hout : (finishSpec o cur zone).length > 253
+      · simp [hout] at h
+      simp only [hout, if_false, ok.injEq] at h
+      obtain ⟨done, h1, h2, h3, h4⟩ := scan_sound name [] [] o cur ⟨by simp, by simp⟩ hs
+      simp only [List.nil_append] at h1 h4
+      subst h4
+      refine ⟨by omega, by rw [← h]; omega, Or.inr ⟨done, cur, h1, h2, h3, ?_⟩⟩
+      rw [← h, finishSpec_labels]
+
+theorem dotted_length (done : List Bytes) : (dotted done).length = labSum done := by
+  induction done with
+  | nil => rfl
+  | cons l done ih => simp [dotted, labSum_cons] at ih ⊢; omega
+
+theorem text_le_wire (done : List Bytes) (cur tail : Bytes) :
+    (dotted done ++ cur).length ≤ (encLabels (labelsOf done cur) ++ tail).length := by
+  simp only [List.length_append, dotted_length, encLabels_length]
+  unfold labelsOf
+  by_cases h : cur = []
+  · simp [h]
+  · simp [h, labSum_append, labSum_cons, labSum]; omega
+
+/-- **completeness.** Labels of 1..62 dot-free bytes ≤ 128 separated by dots are accepted whenever
+the text and the result fit 253 bytes. -/
+theorem from_text_complete (done : List Bytes) (cur : Bytes) (zone : Option Bytes)
+    (hd : ∀ l ∈ done, TextLabel l) (hc : TextRun cur)
+    (hout : (encLabels (labelsOf done cur) ++ (if cur = [] then [0] else zone.getD [0])).length ≤ 253) :
+    rawNameFromStr (dotted done ++ cur) zone =
+      .ok (encLabels (labelsOf done cur) ++ (if cur = [] then [0] else zone.getD [0])) := by
+  have hl : (dotted done ++ cur).length ≤ 253 := Nat.le_trans (text_le_wire done cur _) hout
+  by_cases hname : dotted done ++ cur = [46]
+  · -- impossible: a label is non-empty and dot-free
+    exfalso
+    cases done with
+    | nil =>
+      simp [dotted] at hname
+      have := hc.2 46 (by rw [hname]; simp)
+      exact this.1 rfl
+    | cons l done =>
+      have hl1 := hd l (by simp)
+      simp [dotted] at hname
+      cases l with
+      | nil => exact hl1.1 rfl
+      | cons c l =>
+        simp at hname
+  · rw [fromStr_eq_scan _ zone hname]
+    have hs := scan_dotted done cur [] hd hc
+    simp only [List.nil_append] at hs
+    have hl' : ¬ ((dotted done ++ cur).length > 253) := by omega
+    simp only [hl', if_false, hs, finishSpec_labels]
+    have : ¬ ((encLabels (labelsOf done cur) ++ (if cur = [] then [0] else zone.getD [0])).length > 253) := by omega
+    simp only [this, if_false]
+
+/-- letter, digit, hyphen, underscore -/
+def ldh (c : UInt8) : Bool :=
+  (97 ≤ c.toNat && c.toNat ≤ 122) || (65 ≤ c.toNat && c.toNat ≤ 90) || (48 ≤ c.toNat && c.toNat ≤ 57) || c == 45 || c == 95
+
+theorem textLabel_of_ldh {l : Bytes} (h1 : l ≠ []) (h2 : l.length ≤ 62) (h3 : ∀ c ∈ l, ldh c = true) : TextLabel l := by
+  refine ⟨h1, h2, ?_⟩
+  intro c hc
+  have := h3 c hc
+  have hlt := c.toNat_lt
+  constructor
+  · intro h; subst h; revert this; decide
+  · unfold ldh at this
+    simp at this
+    rcases this with ((((h | h) | h) | h) | h)
+    · omega
+    · omega
+    · omega
+    · subst h; decide
+    · subst h; decide
+
+/-! ### rejections -/
+
+theorem rejects_long_text (name : Bytes) (zone : Option Bytes) (h : name.length > 253) :
+    rawNameFromStr name zone = .err .invalidName := by
+  have : name ≠ [46] := by intro e; subst e; simp at h
+  rw [fromStr_eq_scan name zone this]
+  simp [h]
+
+theorem rejects_empty_label (a b : Bytes) (zone : Option Bytes) :
+    rawNameFromStr (a ++ 46 :: 46 :: b) zone = .err .invalidName := by
+  have : a ++ 46 :: 46 :: b ≠ [46] := by
+    intro e
+    have := congrArg List.length e
+    simp at this
+    omega
+  rw [fromStr_eq_scan _ zone this]
+  split
+  · rfl
+  · rw [scan_reject_empty]
+
+theorem rejects_leading_dot (b : Bytes) (zone : Option Bytes) (hb : b ≠ []) :
+    rawNameFromStr (46 :: b) zone = .err .invalidName := by
+  have : (46 : UInt8) :: b ≠ [46] := by
+    intro e; simp at e; exact hb e
+  rw [fromStr_eq_scan _ zone this]
+  split
+  · rfl
+  · simp [scan]
+
+theorem rejects_long_label (a l b : Bytes) (zone : Option Bytes) (hl : l.length ≥ 63) (hd : ∀ c ∈ l, c ≠ 46) :
+    rawNameFromStr (a ++ l ++ b) zone = .err .invalidName := by
+  have : a ++ l ++ b ≠ [46] := by
+    intro e
+    have := congrArg List.length e
+    simp at this
+    omega
+  rw [fromStr_eq_scan _ zone this]
+  split
+  · rfl
+  · rw [scan_reject_long a l b [] [] (by simp) hl hd]
+
+/-- a result longer than 253 bytes is an error (whatever the zone) -/
+theorem never_longer (name out : Bytes) (zone : Option Bytes) (h : rawNameFromStr name zone = .ok out) :
+    out.length ≤ 253 := (from_text_sound h).2.1
+
+/-! ### the result as a wire name -/
+
+theorem okLabel_of_text {l : Bytes} (h : TextLabel l) : okLabel l := ⟨by
+  have := h.1
+  cases l with
+  | nil => exact absurd rfl this
+  | cons _ _ => simp, by have := h.2.1; omega⟩
+
+theorem labelsOf_text {done : List Bytes} {cur : Bytes} (hd : ∀ l ∈ done, TextLabel l) (hc : TextRun cur) :
+    ∀ l ∈ labelsOf done cur, TextLabel l := by
+  unfold labelsOf
+  by_cases h : cur = []
+  · simpa [h] using hd
+  · simp only [h, if_false]
+    intro l hl
+    rcases List.mem_append.1 hl with hl | hl
+    · exact hd l hl
+    · simp at hl; subst hl; exact ⟨h, hc.1, hc.2⟩
+
+/-- **well-formed.** Without a zone (or with a final dot) the result is a pointer-free name the
+validator's name relation accepts with exactly the text's labels, provided the labels avoid the
+characters the validator forbids (control characters, DEL, backslash). -/
+theorem wire_wellformed {done : List Bytes} {cur : Bytes} (hd : ∀ l ∈ done, TextLabel l) (hc : TextRun cur)
+    (hlen : (encLabels (labelsOf done cur) ++ [0]).length ≤ 253)
+    (hg : ∀ l ∈ labelsOf done cur, goodChars l = true) :
+    ValidName (encLabels (labelsOf done cur) ++ [0]) 0 (labelsOf done cur) (labSum (labelsOf done cur) + 1) ∧
+      ∀ l ∈ labelsOf done cur, 1 ≤ l.length ∧ l.length ≤ 63 := by
+  have ht := labelsOf_text hd hc
+  have hok : ∀ l ∈ labelsOf done cur, okLabel l := fun l hl => okLabel_of_text (ht l hl)
+  refine ⟨validName_of_enc hok ?_ hg, hok⟩
+  rw [wireLen_eq]
+  simp [encLabels_length] at hlen
+  omega
+
+theorem escapeLabel_nodot {l : Bytes} (h : ∀ c ∈ l, c ≠ 46) : escapeLabel l = l := by
+  unfold escapeLabel
+  induction l with
+  | nil => rfl
+  | cons c t ih =>
+    have hc : (c == 46) = false := by simpa using h c (by simp)
+    simp only [List.flatMap_cons, hc, Bool.false_eq_true, if_false]
+    rw [ih (fun x hx => h x (by simp [hx]))]
+    rfl
+
+private theorem joinText_ne (res : Bytes) (hr : res ≠ []) (ls : List Bytes) (hl : ∀ l ∈ ls, TextLabel l) :
+    joinText res ls = res ++ ls.flatMap (fun l => 46 :: l) := by
+  induction ls generalizing res with
+  | nil => simp [joinText]
+  | cons l ls ih =>
+    have h1 := hl l (by simp)
+    have hemp : res.isEmpty = false := by cases res with
+      | nil => exact absurd rfl hr
+      | cons _ _ => rfl
+    have : joinText res (l :: ls) = joinText (res ++ [46] ++ l) ls := by
+      simp [joinText, hr, escapeLabel_nodot (fun c hc => (h1.2.2 c hc).1)]
+    rw [this, ih _ (by simp) (fun x hx => hl x (by simp [hx]))]
+    simp
+
+private theorem flat_dot (ls : List Bytes) : ls.flatMap (fun l => 46 :: l) ++ [46] = 46 :: dotted ls := by
+  induction ls with
+  | nil => simp [dotted]
+  | cons l ls ih =>
+    simp only [List.flatMap_cons, List.append_assoc, ih]
+    simp [dotted]
+
+/-- the text form of the labels: the input without its final dot -/
+theorem joinText_labelsOf {done : List Bytes} {cur : Bytes} (hd : ∀ l ∈ done, TextLabel l) (hc : TextRun cur) :
+    joinText [] (labelsOf done cur) = if cur = [] then (dotted done).dropLast else dotted done ++ cur := by
+  have ht := labelsOf_text hd hc
+  cases hls : labelsOf done cur with
+  | nil =>
+    unfold labelsOf at hls
+    by_cases h : cur = []
+    · simp [h] at hls; subst hls; simp [h, joinText, dotted]
+    · simp [h] at hls
+  | cons l ls =>
+    rw [hls] at ht
+    have h1 := ht l (by simp)
+    have : joinText [] (l :: ls) = joinText l ls := by
+      simp [joinText, escapeLabel_nodot (fun c hc => (h1.2.2 c hc).1)]
+    rw [this, joinText_ne l h1.1 ls (fun x hx => ht x (by simp [hx]))]
+    unfold labelsOf at hls
+    by_cases h : cur = []
+    · simp only [h, if_true] at hls ⊢
+      subst hls
+      have := flat_dot ls
+      have e : dotted (l :: ls) = (l ++ ls.flatMap (fun l => 46 :: l)) ++ [46] := by
+        rw [List.append_assoc, this]; simp [dotted]
+      rw [e]; simp
+    · simp only [h, if_false] at hls ⊢
+      -- done ++ [cur] = l :: ls
+      cases done with
+      | nil =>
+        simp at hls
+        obtain ⟨rfl, rfl⟩ := hls
+        simp [dotted]
+      | cons d ds =>
+        simp at hls
+        obtain ⟨rfl, rfl⟩ := hls
+        have := flat_dot ds
+        simp only [List.flatMap_append, List.flatMap_cons, List.flatMap_nil, List.append_nil]
+        have e : dotted (d :: ds) = d ++ 46 :: dotted ds := by simp [dotted]
+        rw [e, ← this]
+        simp
+
+/-- **reads back.** The name accessor's text for the result is the input without its final dot. -/
+theorem reads_back {done : List Bytes} {cur : Bytes} (hd : ∀ l ∈ done, TextLabel l) (hc : TextRun cur)
+    (hlen : (encLabels (labelsOf done cur) ++ [0]).length ≤ 253)
+    (hg : ∀ l ∈ labelsOf done cur, goodChars l = true) :
+    rawNameToStr (encLabels (labelsOf done cur) ++ [0]) 0 =
+      .ok (if cur = [] then (dotted done).dropLast else dotted done ++ cur) := by
+  rw [rawNameToStr_valid (wire_wellformed hd hc hlen hg).1, joinText_labelsOf hd hc]
+
+/-- with a zone `zs`: the result is the name `labels ++ zs`, reading back as `text.zone` -/
+theorem with_zone {done : List Bytes} {cur : Bytes} (zs : List Bytes) (hcur : cur ≠ []) :
+    encLabels (labelsOf done cur) ++ (if cur = [] then [0] else (some (encLabels zs ++ [0])).getD [0]) =
+      encLabels (labelsOf done cur ++ zs) ++ [0] := by
+  simp [hcur, encLabels_append]
+
+/-! non-vacuity: "www.Example.com" with and without final dot, with a zone -/
+example : rawNameFromStr [119,119,119,46,69,120,46,99] none = .ok [3,119,119,119,2,69,120,1,99,0] := by decide
+example : rawNameFromStr [119,119,119,46,69,120,46,99,46] (some [1,122,0]) = .ok [3,119,119,119,2,69,120,1,99,0] := by decide
+example : rawNameFromStr [119,119,119] (some [1,122,0]) = .ok [3,119,119,119,1,122,0] := by decide
+example : rawNameFromStr [119,46,46,119] none = .err .invalidName := by decide
+
 end Dns.C14
